@@ -225,7 +225,9 @@ impl TokenType {
             // e.g. a single `'` turns into a char literal
             Unknown(_) => 1,
             LParen | RParen | LBracket | RBracket | LCurly | RCurly | Eq | Neq | Le | Ge
-            | Assign | Comma | Semic | Plus | Minus | Times | Comment(_) | Eof => 0,
+            | Assign | Comma | Semic | Plus | Minus | Times | Eof => 0,
+            // a comment on the last line has no newline yet and grows with the next character
+            Comment(_) => 1,
             Char(_) => {
                 1 // this is a worst case look ahead.
             }
